@@ -120,7 +120,7 @@ class Monitor:
         self.t = 0
         self.writes = 0
         self.states_seen = set()
-        self.judge_routes = True
+        self.completed = set()
 
     # ---- reporting
     def v(self, mech, msg):
@@ -311,7 +311,7 @@ class Monitor:
             return conn is not None
         if target in ("icmp", "arp", "data-manipulation-bot", "ransomware-script", "user-manager", "user-session-manager"):
             if target == "arp":
-                P.software_manager.arp.clear() if hasattr(P.software_manager.arp, "clear") else None
+                P.software_manager.arp.clear()
             return bool(P.ping(TIP, pings=1))
         if target == "nmap":
             from primaite.simulator.system.applications.nmap import PortScanPayload
@@ -371,10 +371,12 @@ class Monitor:
                 direction = self.power.tick()
                 self.power_edges = direction is not None
                 self.sim.apply_timestep(self.t)
+                self.completed = set()
                 for r in self.refs.values():
                     if direction:
                         r.power(direction)
-                    r.tick(self.power.state == "ON")
+                    if r.tick(self.power.state == "ON"):
+                        self.completed.add(r.name)
                 self.event = (None, None)
                 self.sim.pre_timestep(self.t)
             elif verb in ("shutdown", "startup"):
@@ -458,7 +460,6 @@ class Monitor:
                    else ["network", "node", HOST, "application", target, verb])
         status, _ = self.request(req)
         self.log[-1] += f"={status}"
-        tname = target if self.family not in ("multi",) else kind
         self.cov.hit("cells", f"{target}|{pre}|{verb}|{status}")
         self.cov.inc("requests_sent")
         if verb == "install" and pre == "ABSENT" and status == "success":
@@ -484,6 +485,8 @@ class Monitor:
     def check(self, verb, target):
         T = self.T
         sm = T.software_manager
+        if verb == "arm":
+            self.log.append("arm")
         if T.operating_state.name != self.power.state:
             # node power is C12's property; without an agreed power state nothing below can be judged
             self.cov.hit("diag_power_model_mismatch", f"{self.power.state}|{T.operating_state.name}")
@@ -507,9 +510,9 @@ class Monitor:
             if real in acc:
                 if ref.free and real != ref.state:
                     self.cov.inc("diag_timer_disturbed_by_power_adopted")
-                if verb == "tick" and ref.state == R and real == R and ref.due is None and ref.elapsed is None and getattr(ref, "_was_timed", False):
+                if verb == "tick" and name in self.completed and real == R:
                     self.cov.inc("timer_completions_on_expected_tick")
-                ref._was_timed = real == L.TIMED[kind] and not ref.free
+                    self.cov.hit("timer_cells", f"{'restart' if kind == L.SERVICE else 'install'}|d={self.dur_of(obj, kind)}")
                 ref.adopt(real)
                 continue
             if name == target and verb in L.NOT_JUDGED_VERBS and (ref.state, real) in L.ALL_EDGES[kind]:
